@@ -28,7 +28,7 @@ Inductive skel :=
 | KTainted (i : nat)       (* a statement that reads a module-level mutable object outside the test of an `if` *)
 | KLog                     (* LOGGER.<level>(...) / warnings.warn(...) as a statement *)
 | KUpd (i : nat)           (* update of the module-level object itself: G.add(..), G.clear(), G[k] = .. *)
-| KJump (k : jump)         (* continue / break / return / raise *)
+| KJump (k : jump)         (* continue / break / bare return / raise; `return v` is KEff (the value handed to the caller) then KJump JReturn *)
 | KIf (t : test) (a b : skel)
 | KLoop (i : nat) (body : skel)            (* for-loop: the iteration count is fixed by the program state at entry *)
 | KTry (body handler els : skel)           (* handler = the except clauses as an if-chain ending in a re-raise *)
